@@ -183,7 +183,7 @@ func genC19(c *Ctx) {
 	if c.Thorough() {
 		base = 100
 	}
-	patterns := []string{"pingpong", "oneway", "listen-heartbeat", "forged-flood", "crossing", "error-reake", "answers-lost", "answers-late", "bad-fragment-flood", "plaintext-flood"}
+	patterns := []string{"pingpong", "oneway", "listen-heartbeat", "listen-rekey", "forged-flood", "crossing", "error-reake", "answers-lost", "answers-late", "bad-fragment-flood", "plaintext-flood"}
 	for _, pat := range patterns {
 		var sizes [][]int
 		for _, mult := range []int{1, 2, 4} {
@@ -198,8 +198,18 @@ func genC19(c *Ctx) {
 				pol = polV3
 			}
 			pols := []int{pol, pol}
+			if pat == "listen-rekey" {
+				// party 1 only listens and lets a whitespace tag start a key exchange; party 2 tags what it writes in the clear
+				pols = []int{pol | polWSStart, pol | polSendWS}
+			}
 			s := newSys(pols, c.R.U64())
-			if !s.Handshake(1, 2) {
+			if pat == "listen-rekey" {
+				s.Send(2, []byte("hello"))
+				s.Pump(1, 2, 20)
+				if !(s.ps[1].c.IsEncrypted() && s.ps[2].c.IsEncrypted()) {
+					continue
+				}
+			} else if !s.Handshake(1, 2) {
 				continue
 			}
 			n := base * mult
@@ -224,6 +234,27 @@ func genC19(c *Ctx) {
 					if r == n-1 {
 						o := s.Send(2, []byte("finally an answer"))
 						lastLen = len(o[len(o)-1])
+						s.Pump(1, 2, 10)
+					}
+				case "listen-rekey":
+					// no time passes: the peer writes one line, forgets the session (its notice is lost) and writes in the
+					// clear again, which makes us run a new key exchange over the old session - again and again, while
+					// we never write anything ourselves; at the end the peer writes once more and we answer
+					s.Send(2, []byte("lr"))
+					s.Pump(1, 2, 10)
+					before := len(s.ps[2].outs)
+					s.End(2)
+					s.dropFrom(2, before)
+					s.Send(2, []byte("in the clear"))
+					s.Pump(1, 2, 20)
+					if r == n-1 {
+						s.Send(2, []byte("one more"))
+						s.Pump(1, 2, 10)
+						o := s.Send(1, []byte("finally an answer"))
+						lastLen = 0
+						for _, m := range o {
+							lastLen += len(m)
+						}
 						s.Pump(1, 2, 10)
 					}
 				case "forged-flood":
